@@ -232,6 +232,7 @@ class SessionModel:
                 self.bad('event-on-closed', op='close', events=[a[1] for a in attempts])
             if res[0] != 'ok':
                 self.bad('spurious-error', op='close', why='close on a closed socket does nothing', got=_show(res))
+            self.phase = CLOSED       # the application closed its side: later operations see a closed socket
             return
         eff = 1000 if code is None else code
         if len(attempts) != 1:
@@ -248,9 +249,12 @@ class SessionModel:
             kind = outcome.split(':', 1)[1]
             self.hit('close.send-raised.' + kind)
             if kind in ('oserror', 'oserror_cause', 'ws_ok'):
-                self.lost = True          # whatever close() reports, the connection is gone
-            if res[0] != 'exc':
-                self.bad('error-swallowed', op='close', why='send raised %s' % kind, got=_show(res))
+                # whatever close() reports, the connection is gone.  What later operations must answer is
+                # not documented for this situation: only the wire monitor (nothing may be sent any more)
+                # keeps judging.
+                self.lost = True
+                self.phase = UNKNOWN
+            # what close() itself reports when the server refuses the event is not documented: not judged
 
     # -- sends
     def _send_common(self, op, facts, attempts, res, gone, bad_type, want_event):
